@@ -3,7 +3,9 @@
    out every declared field exactly once and in declaration order, __init__ stores every field, so the
    constructed tree's children are ordered and non-overlapping in its fresh store. The re-parse half of the
    property needs the real lexer/parser (an oracle): decided by the monitor on every run (C15_partial). *)
+From AB Require Import Tree TreeDefs TreeProofs TreeProofs2 TreeProofs3 TreeProofs4 TreeWF TreeWFProofs TreeRun TreeFacts Construct ConstructProofs ConstructWF ConstructFacts.
 From AB Require Import Desc Generated GeneratedWf DescProofs.
+From Coq Require Import ZArith.
 
 Theorem C15_generated_classes_wf : forall c, In c classes -> wf_desc c = true.
 Proof. exact generated_wf_each. Qed.
@@ -19,3 +21,63 @@ Proof. intros c H. destruct (wf_desc_parts c (generated_wf_each c H)) as (A & B 
 Example C15_open_layout :
   exists l, c_layout c_Open = Some l /\ flat_map lay_field l = field_names c_Open /\ length l = 13.
 Proof. eexists. split; [reflexivity|]. split; vm_compute; reflexivity. Qed.
+
+(* ---- the generic from_children (Construct.construct: the generated classmethod over descriptors,
+   with fields.py's detach_with_separators and Repeated.from_children) --------------------------- *)
+(* the new store holds, token by token, the texts the layout specifies (children's texts, declared
+   separators, placeholder for repeated fields); hence the printed text *)
+Theorem C15_constructed_text : forall cs new mid c args data next store n,
+  construct cs new mid c args data next = Some (store, n) ->
+  texts store = spec_texts c args /\ text_of store = cat (spec_texts c args).
+Proof. exact constructed_texts. Qed.
+(* each child of the result is the argument given for that field (re-attached), one per layout
+   entry; for a class following the scheme these are exactly the declared fields, in order *)
+Theorem C15_constructed_fields : forall cs new mid c args data next store n,
+  construct cs new mid c args data next = Some (store, n) ->
+  exists T kids, n = Tree (c_name c) new T kids data
+    /\ (wf_desc c = true -> map fst kids = names c)
+    /\ (forall name sl, In (name, sl) kids -> kid_from_arg cs new mid c args name sl).
+Proof. exact constructed_fields. Qed.
+(* the result conforms to its class declaration, for every subset of optional arguments and every
+   list length (args is arbitrary) *)
+Theorem C15_constructed_conforms : forall cs new mid c args data next store n,
+  find_class cs (c_name c) = Some c -> wf_desc c = true -> NoDup (names c) ->
+  args_all args (fun x => conforms cs x = true) ->
+  construct cs new mid c args data next = Some (store, n) ->
+  conforms cs n = true.
+Proof. exact constructed_conforms. Qed.
+Theorem C15_constructed_conforms_generated : forall c args new mid data next store n,
+  In c classes -> find_class all_classes (c_name c) = Some c ->
+  args_all args (fun x => conforms all_classes x = true) ->
+  construct all_classes new mid c args data next = Some (store, n) ->
+  conforms all_classes n = true.
+Proof.
+  exact (fun c args new mid data next store n Hc Hf =>
+    constructed_conforms all_classes new mid c args data next store n Hf (generated_wf_each c Hc)
+      (names_nodup_all c (proj1 (find_class_In _ _ _ Hf)))).
+Qed.
+(* the result satisfies the C05 statement (TreeWF.WF). Two hypotheses are about the run, not the class:
+   the tokens are pairwise distinct objects, and the node spans its whole store. The second holds
+   when no separator/literal lies before the first or after the last present child (true of every
+   generated layout: checked on the implementation by TreeRun.TWf with the store given); deriving it
+   from the descriptor alone is not done here, hence _partial. *)
+Theorem C15_constructed_wf_partial : forall cs new mid, classes_ok cs -> forall c args data next store n,
+  classes_anchored cs -> find_class cs (c_name c) = Some c -> wf_desc c = true -> NoDup (names c) ->
+  args_all args (arg_good cs) ->
+  construct cs new mid c args data next = Some (store, n) ->
+  NoDup (ids store) -> node_toks n = store ->
+  WF cs n.
+Proof. exact constructed_wf. Qed.
+
+Example C15_constructed_hyps :
+  find_class all_classes (c_name c_Open) = Some c_Open /\ wf_desc c_Open = true
+  /\ match ex_construct with
+     | Some (store, n) =>
+       nodupz (ids store) = true /\ toks_same (node_toks n) store = true
+       /\ conforms all_classes n = true /\ wf_b all_classes n = true /\ whole_store_b n store = true
+       /\ length store = 23%nat
+     | None => False
+     end.
+Proof. vm_compute. auto 10. Qed.
+Example C15_constructed_args_good : args_all ex_args (arg_good all_classes).
+Proof. exact ex_args_good. Qed.
